@@ -542,7 +542,36 @@ class Fn:
             orders = [s, {"acq_rel": "acquire", "release": "relaxed"}.get(s, s)]
         return {"op": leaf, "kind": kind, "obj": obj, "field": self.field_of(obj), "orders": orders, "nid": nid, "cls": cls}
 
-    def field_of(self, nid):
+    def _alias_init(self, name):
+        """(init node, is_pointer) if the local is a reference bound once, or a pointer initialised once and afterwards only stepped (++/--)"""
+        cache = self.__dict__.setdefault("_alias_cache", {})
+        if name in cache:
+            return cache[name]
+        res = None
+        decl = None
+        for b, i, e, n in self.events(live_only=False):
+            if n["k"] == "decl":
+                for v in n["vars"]:
+                    if v["name"] == name and "init" in v:
+                        decl = v
+        if decl is not None:
+            t = decl.get("t", "").strip()
+            is_ref = t.endswith("&") or t.endswith("]") or "(&)" in t
+            is_ptr = t.endswith("*") or t.endswith("*const")
+            if is_ref or is_ptr:
+                ok = True
+                for b, i, e, n in self.events(live_only=False):
+                    c = self.kids(e)
+                    if n["k"] == "bin" and n["op"].endswith("=") and n["op"] not in ("==", "!=", "<=", ">=") and c and self.nodes[c[0]]["k"] == "ref" and self.nodes[c[0]].get("name") == name:
+                        ok = False      # re-assigned / re-seated
+                    if n["k"] == "call" and n.get("callee", "").endswith("operator=") and c and self.nodes[c[0]]["k"] == "ref" and self.nodes[c[0]].get("name") == name and is_ptr:
+                        ok = False
+                if ok:
+                    res = (decl["init"], is_ptr)
+        cache[name] = res
+        return res
+
+    def field_of(self, nid, _depth=0):
         """name of the field / variable an object expression designates (last member in the access chain)"""
         if nid is None:
             return "?"
@@ -551,11 +580,20 @@ class Fn:
         if k == "member":
             return n["name"]
         if k == "ref":
+            if n.get("dk") == "local" and _depth < 6:
+                # a reference (or an element pointer that is only stepped) designates what it was bound to: `auto& b = buckets[i]`, range-for variables
+                al = self._alias_init(n["name"])
+                if al is not None:
+                    init, is_ptr = al
+                    f = self.field_of(init, _depth + 1)
+                    if not f.startswith("?") and not f.startswith("local:") and not f.startswith("call:"):
+                        return (f + "[]") if (is_ptr and not f.endswith("[]")) else f
             return ("%s:%s" % (n.get("dk"), n["name"])) if n.get("dk") in ("local", "param") else n["name"]
         if k == "index":
-            return self.field_of(self.kids(nid)[0]) + "[]"
+            return self.field_of(self.kids(nid)[0], _depth + 1) + "[]"
         if k == "un" and n["op"] == "*":
-            return "*" + self.field_of(self.kids(nid)[0])
+            inner = self.field_of(self.kids(nid)[0], _depth + 1)
+            return inner if inner.endswith("[]") else "*" + inner
         if k == "call":
             leaf = n.get("callee", "").split("::")[-1]
             c = self.kids(nid)
@@ -635,6 +673,13 @@ class Facts:
             if known is not None:
                 shapes, self.inline_report = inline.inline_new_helpers(shapes, known)
         self.fns = [Fn(r) for r in shapes]
+        self.known_patterns = set()
+        self.known_callers = {}
+        try:
+            self.known_patterns = set(json.load(open(os.path.join(VERIF, "tables", "known_patterns.json"))))
+            self.known_callers = json.load(open(os.path.join(VERIF, "tables", "known_calls.json")))
+        except (OSError, ValueError):
+            pass
         # helpers that were expanded into their callers are judged in that context; per-function scans skip their stand-alone shape
         expanded = {x["callee"] for x in self.inline_report["expanded"]}
         for f in self.fns:
@@ -651,6 +696,23 @@ class Facts:
 
     def shapes(self, pat):
         return self.by_pat.get(pat, [])
+
+    def merged_into(self, pat):
+        """a function the rules were written for that no longer exists, while the functions that used to call it still do: its body was inlined
+        into its callers (or it was dropped).  Returns the shapes of those callers - the rule is then evaluated where the code now lives."""
+        if pat in self.by_pat or pat not in self.known_patterns:
+            return []
+        out = []
+        for c in self.known_callers.get(pat, []):
+            out.extend(self.by_pat.get(c, []))
+        return out
+
+    def vanished_callee(self, name):
+        """name (leaf or qualified suffix) designates only functions that existed on the tree the rules were written for and exist no more"""
+        known = [p for p in self.known_patterns if p == name or p.endswith("::" + name)]
+        if not known:
+            return False
+        return not any(p in self.by_pat for p in known) and not any(q == name or q.endswith("::" + name) for q in self.by_pat)
 
     def require(self, pat):
         s = self.by_pat.get(pat)
